@@ -11,6 +11,19 @@ REPO = os.environ.get("PYVC_REPO", "/repo")
 NATIVE_PY = "/venv/bin/python"
 
 PLANS = {
+    "C03": {
+        "level": "other",
+        "sidecars": ["serialise", "params", "driver"],
+        "extras": [{"name": "c03_atom_set_table", "module": "tables.x_checks", "func": "c03_atom_sets", "python": "vt"},
+                   {"name": "c07_records", "module": "bounded.c07_records", "func": "run", "python": "venv", "timeout": 3000}],
+        "explanation": "Contracts decide the bookkeeping: apply_force_field partitions the model into written / unassigned, "
+                       "non_trivial serialises exactly the written list and returns the other, print_biomolecule_atoms emits "
+                       "one record per list element in order, Residue.remove_atom / rename_atom keep map and list in "
+                       "agreement. The end-to-end clauses (every input heavy atom survives, exact topology atom set, no "
+                       "placeholders) depend on geometric success of hydrogen placement and on the optimiser's network "
+                       "construction and are decided only for the shipped templates (X table over 240 pipeline runs, 13 324 "
+                       "atoms) and by the bounded record-sequence enumeration of the constructor.",
+    },
     "C11": {
         "level": "other",
         "sidecars": [],
